@@ -5,7 +5,6 @@ package simsig
 import (
 	"os"
 	"os/signal"
-	"sync"
 
 	"verifsim/simrt"
 )
@@ -16,7 +15,7 @@ type reg struct {
 }
 
 var (
-	mu   sync.Mutex
+	mu   simrt.HMutex
 	regs []reg
 )
 
